@@ -37,9 +37,16 @@ type scriptConn struct {
 	// allows data and an error from the same call)
 	errAt    int
 	chunkErr error
-	// honourDeadlines: an armed read deadline makes a read without data time out
+	// honourDeadlines: an armed read deadline makes a read without data time out; a write more
+	// than 10 s (the library's messageTimeout) of logical time after the write deadline was armed
+	// times out. Logical time advances by gapAfterWrite seconds after each completed write (the
+	// time the writer then waits for the next submission).
 	honourDeadlines bool
 	readDeadline    bool
+	writeDeadline   bool
+	writeArmedAt    int
+	tick            int
+	gapAfterWrite   int
 }
 
 func (c *scriptConn) Read(b []byte) (int, error) {
@@ -70,18 +77,29 @@ func (c *scriptConn) Write(b []byte) (int, error) {
 	if c.writeErr != nil {
 		return 0, c.writeErr
 	}
+	if c.honourDeadlines && c.writeDeadline && c.tick-c.writeArmedAt > 10 {
+		return 0, timeoutErr{}
+	}
 	cp := make([]byte, len(b))
 	copy(cp, b)
 	c.writes = append(c.writes, cp)
+	c.tick += c.gapAfterWrite
 	return len(b), nil
 }
 
-func (c *scriptConn) Close() error                       { c.closed++; return nil }
-func (c *scriptConn) LocalAddr() net.Addr                { return nil }
-func (c *scriptConn) RemoteAddr() net.Addr               { return nil }
-func (c *scriptConn) SetDeadline(t time.Time) error      { c.readDeadline = !t.IsZero(); return nil }
-func (c *scriptConn) SetReadDeadline(t time.Time) error  { c.readDeadline = !t.IsZero(); return nil }
-func (c *scriptConn) SetWriteDeadline(t time.Time) error { return nil }
+func (c *scriptConn) Close() error         { c.closed++; return nil }
+func (c *scriptConn) LocalAddr() net.Addr  { return nil }
+func (c *scriptConn) RemoteAddr() net.Addr { return nil }
+func (c *scriptConn) SetDeadline(t time.Time) error {
+	c.readDeadline = !t.IsZero()
+	c.writeDeadline, c.writeArmedAt = !t.IsZero(), c.tick
+	return nil
+}
+func (c *scriptConn) SetReadDeadline(t time.Time) error { c.readDeadline = !t.IsZero(); return nil }
+func (c *scriptConn) SetWriteDeadline(t time.Time) error {
+	c.writeDeadline, c.writeArmedAt = !t.IsZero(), c.tick
+	return nil
+}
 
 func newTestStream(conn net.Conn, nbuf int, parser Parser) *MessageStream {
 	pool := &BufferPool{Empty: make(chan *bytes.Buffer, nbuf), Full: make(chan *bytes.Buffer, nbuf)}
@@ -469,6 +487,31 @@ func VerifC11_WriterLeavesReadSideAlone() {
 	vr.Assert(len(conn.writes) == 1, "message-written")
 	m.inbound() // the peer sends nothing
 	vr.Assert(len(m.Error) == 0 && len(m.Shutdown) == 0, "silent-peer-after-a-send-is-not-a-failure")
+}
+
+// submissions spread over time (11 s of logical time between one write and the next submission,
+// more than the library's 10 s write timeout) on a healthy, deadline-honouring connection: every
+// message is written, and the writer does not end the process
+func VerifC11_IdleGapsBetweenMessages() {
+	n := vr.IntRange("nmsgs", 1, 3)
+	conn := &scriptConn{honourDeadlines: true, gapAfterWrite: 11}
+	m := newTestStream(conn, 0, nil)
+	var want [][]byte
+	for i := 0; i < n; i++ {
+		b := vr.Bytes("msg", 8)
+		want = append(want, b)
+		m.Outbound <- &recMsg{b}
+	}
+	close(m.Outbound)
+	vr.FatalIsViolation(true)
+	m.outbound()
+	vr.FatalIsViolation(false)
+	vr.Assert(len(conn.writes) == n, "every-message-written-despite-idle-gaps")
+	for i := range want {
+		if i < len(conn.writes) {
+			vr.Assert(vr.BytesEq(conn.writes[i], want[i]), "write-is-the-message's-encoding-in-submission-order")
+		}
+	}
 }
 
 func VerifC11_Topology() {
